@@ -608,7 +608,7 @@ func (x *c12) attribute(h h12, r *res12, fs []finding) *finding {
 	}
 	var match *finding
 	for _, k := range applied {
-		if k.Class == r.Verdict {
+		if classMatches(k.Class, r.Verdict) {
 			match = k
 			break
 		}
@@ -621,6 +621,16 @@ func (x *c12) attribute(h h12, r *res12, fs []finding) *finding {
 		return match
 	}
 	return nil
+}
+
+// classMatches: a finding may name several classes, separated by commas.
+func classMatches(classes, verdict string) bool {
+	for _, c := range strings.Split(classes, ",") {
+		if c == verdict {
+			return true
+		}
+	}
+	return false
 }
 
 func describe12(h h12, r *res12) string {
@@ -765,6 +775,10 @@ func mainC12(e *env) {
 	minimised := 0
 	reported := map[string]bool{}
 	for _, s := range order {
+		if violations >= 5 {
+			fmt.Printf("  note: %d further failure groups not examined after 5 reported violations\n", len(order))
+			break
+		}
 		g := groups[s]
 		f := g[0] // shortest history of the group
 		if k := x.attribute(f.Hist, f.Res, known); k != nil {
